@@ -291,6 +291,8 @@ def _classes(e):
 
 
 def replay(case: dict):
+    if case.get("driver") == "moving-window":
+        return mw_history(case["capacity"], [tuple(h) for h in case["history"]])
     set_unit(case.get("unit_ms", 1000))
     rb, ref = mk(case["capacity"], case["period"], case["align"], case["container"])
     counter = 0
@@ -312,8 +314,118 @@ def replay(case: dict):
     return [e] if e else []
 
 
+# -- MovingWindow: the real class fed through its channel on the virtual loop ----------
+
+
+def mw_history(cap, hist):
+    """hist: list of (slot offset from the newest slot (>= -(cap-1)), kind). Returns violations."""
+    from frequenz.channels import Broadcast
+
+    from frequenz.sdk.timeseries import MovingWindow
+
+    from ..vloop import virtual_loop
+    from . import formula as F
+
+    v = []
+    with virtual_loop(wall=True) as loop:
+        ch = Broadcast(name="in")
+        mw = MovingWindow(size=timedelta(seconds=cap), resampled_data_recv=ch.new_receiver(), input_sampling_period=timedelta(seconds=1))
+        mw._buffer._buffer[:] = SENT  # np.empty() gives uninitialised memory: make stale content recognisable
+        mw.start()
+        loop.settle()
+        snd = ch.new_sender()
+        slots = {}
+        newest = None
+        counter = 0
+        for d, kind in hist:
+            k = d if newest is None else newest + d
+            counter += 1
+            val = float(counter)
+            q = Quantity(val) if kind == "v" else None
+            F.push(snd, Sample(E + timedelta(seconds=k), q))
+            loop.settle()
+            newest = k if newest is None else max(newest, k)
+            slots[k] = val if kind == "v" else None
+            for j in list(slots):
+                if j < newest - cap + 1:
+                    del slots[j]
+        content = {k: slots.get(k) for k in range(newest - cap + 1, newest + 1)}
+        valid = [k for k, x in content.items() if x is not None]
+        if not mw.is_running:
+            v.append(("moving_window_task_survives_in_window_updates", {}))
+        if valid:
+            ov, nw = min(valid), newest
+            L = [content[k] for k in range(ov, nw + 1)]
+            L_alt = [content[k] for k in range(ov, max(valid) + 1)]
+            for idx in range(-cap - 2, cap + 3):
+                exp = "IndexError"
+                if -len(L) <= idx < len(L):
+                    exp = L[idx]
+                exp_alt = "IndexError"
+                if -len(L_alt) <= idx < len(L_alt):
+                    exp_alt = L_alt[idx]
+                try:
+                    got = float(mw.at(idx))
+                except IndexError:
+                    got = "IndexError"
+                ok = any((e == "IndexError" and got == "IndexError") or (e is None and got != "IndexError" and math.isnan(got))
+                         or (e not in (None, "IndexError") and got == e) for e in (exp, exp_alt))
+                if not ok:
+                    v.append(("moving_window_at_index_returns_stored_value_or_nan_or_raises", {"index": idx, "got": got, "expected": exp, "covered": L}))
+                    break
+            for k in range(ov - 2, nw + 3):
+                exp = "IndexError" if not (ov <= k <= nw) else content[k]
+                try:
+                    got = float(mw.at(E + timedelta(seconds=k)))
+                except IndexError:
+                    got = "IndexError"
+                ok = (exp == "IndexError" and got == "IndexError") or (exp is None and got != "IndexError" and math.isnan(got)) or \
+                     (exp not in (None, "IndexError") and got == exp) or (k > max(valid) and got == "IndexError")
+                if not ok:
+                    v.append(("moving_window_at_timestamp_returns_stored_value_or_nan_or_raises", {"slot": k, "got": got, "expected": exp}))
+                    break
+            full = [float(x) for x in mw[:]]
+            expf = [x if x is not None else math.nan for x in L]
+            expf_alt = [x if x is not None else math.nan for x in L_alt]
+            if not same(full, expf) and not same(full, expf_alt):
+                v.append(("moving_window_slice_is_covered_content", {"got": full, "expected": expf}))
+        loop.create_task(mw.stop())
+        loop.settle()
+    return v
+
+
+def mw_shard(args) -> Acc:
+    tier, cap, first, depth = args
+    acc = Acc()
+    offsets = list(range(-(cap - 1), cap + 2))
+    events = [(d, k) for d in offsets for k in ("v", "none")]
+    for tail in itertools.product(events, repeat=depth - 1):
+        hist = [first, *tail]
+        viol = mw_history(cap, hist)
+        acc.evaluations += 1
+        acc.traces += 1
+        acc.transitions += len(hist)
+        acc.clauses["moving_window_queries"] += 1
+        if any(d > 1 for d, _ in hist[1:]) or any(k == "none" for _, k in hist):
+            acc.nontrivial += 1
+        acc.state(repr(("mw", cap, hist)))
+        for clause, detail in viol:
+            acc.violation(Violation(clause, {"driver": "moving-window", "capacity": cap, "history": [list(h) for h in hist]}, detail))
+    acc.outcome(f"moving-window cap={cap}")
+    return acc
+
+
+def _dispatch(args):
+    if args[0] == "mw":
+        return mw_shard(args[1:])
+    return bfs(args)
+
+
 def run(tier: str, seed: int, workers: int):
     shards = []
+    for cap in ([3, 4] if tier == "quick" else [2, 3, 4, 5]):
+        for k in ("v", "none"):
+            shards.append(("mw", tier, cap, (0, k), 4 if tier == "quick" else 5))
     caps = [1, 2, 3, 4] if tier == "quick" else [1, 2, 3, 4, 5]
     depth = 5 if tier == "quick" else 6
     for cap in caps:
@@ -328,14 +440,16 @@ def run(tier: str, seed: int, workers: int):
         import random
 
         random.Random(seed).shuffle(shards)
-    acc = pmap_acc(bfs, shards, workers)
+    acc = pmap_acc(_dispatch, shards, workers)
     meta = {
         "rule": "BFS over update histories: timestamp = newest slot + d time units for every d from two windows back to beyond "
         "the capacity ahead (on and off the slot grid, incl. exact half-period ties), value valid / None / NaN; states "
         "deduplicated on (wrap position, raw backing array incl. stale slots with valid values renamed by first occurrence, "
         "gap list relative to newest); in every state: content, count, gaps, oldest/newest, is_missing, every index pair from "
         "{None, -cap-1..cap+1}^2 and every datetime pair on the half-slot grid from two periods before the window to two "
-        "periods after; non-trivial state = history of >= 2 updates with an off-grid timestamp",
+        "periods after; non-trivial state = history of >= 2 updates with an off-grid timestamp; plus the real MovingWindow fed through its "
+        "channel on the virtual loop: every in-window update history of depth 4 (quick) / 5, capacities 3-4 (2-5), checking at(index), "
+        "at(timestamp) and [:]",
         "assumptions": [
             "payload values only matter through validity, so valid values are renamed in the state key",
             "off-grid query endpoints: either neighbouring slot boundary is accepted; leading slots before the oldest valid "
